@@ -547,12 +547,12 @@ impl Prop for History {
     fn streams(&self) -> Vec<Stream> {
         match self.0 {
             Which::NoCrash => vec![
-                Stream::new("hist", 24000, 240000).asan(24000),
+                Stream::new("hist", 24000, 720000).asan(24000),
                 Stream::new("long", 800, 8000).asan(800),
                 Stream::new("corpus", 64, 1600).asan(64),
             ],
-            Which::NoStale => vec![Stream::new("random", 48000, 480000).miri(6), Stream::new("exhaustive", 567, 567).miri(0)],
-            Which::Registry => vec![Stream::new("core", 16000, 160000).miri(4), Stream::new("bridge", 4000, 40000).miri(2)],
+            Which::NoStale => vec![Stream::new("random", 48000, 2400000).miri(6), Stream::new("exhaustive", 567, 567).miri(0)],
+            Which::Registry => vec![Stream::new("core", 16000, 800000).miri(4), Stream::new("bridge", 4000, 200000).miri(2)],
         }
     }
     fn floors(&self) -> Vec<(&'static str, u64, u64)> {
